@@ -363,10 +363,13 @@ def get_field_types(type_: type[DataclassInstance]) -> dict[Field, Any]:
     """
     ret: dict[Field, Any] = {}
 
+    # Always resolve through get_type_hints: it evaluates forward references
+    # nested inside plain annotations (tuple["Node", ...]) and maps None to NoneType,
+    # so plain and postponed annotations are classified the same way
+    type_hints = get_type_hints(type_)
+
     for field in fields(type_):
-        f_type = field.type
-        if isinstance(f_type, str):
-            f_type = get_type_hints(type_).get(field.name)
+        f_type = type_hints.get(field.name)
 
         if f_type is None:
             raise RuntimeError(f"Could not determine type of field {field.name} for type {type_}")
